@@ -72,6 +72,8 @@ def decode_state(tok):
         v = json.loads(raw.decode("utf-8"))
     except Exception:
         return None
+    if v is None:
+        return 0          # json.Unmarshal of `null` into a struct is a no-op: offset stays 0
     if not isinstance(v, dict):
         return None
     off = 0
